@@ -15,7 +15,7 @@ import (
 func init() {
 	register(&propSpec{ID: "C02", Run: checkC02,
 		Explanation: "(a) every call in the scan body that can reach an action site executes only on paths where a locked() call on this group's scale lock was evaluated earlier in the same invocation and returned false; (b) lock() is called only from ScaleUp, on this group's lock, only after the cloud step returned err == nil, and every success path passes through it; (c) lock() sets isLocked and lockTime ← time.Now() unconditionally, locked() can return true only under Since(lockTime) < minimumLockDuration (unlock() leaves isLocked false on all paths), minimumLockDuration is configured from the same options' scale_up_cool_down_period at both construction sites and never stored elsewhere.",
-		RuleText:    "R1 one obligation per ACT call in the scan body; R2 arming (guard + must-pass-through + callers); R3 lock/locked/unlock bodies; R4 scaleLock construction sites and field store census; R5 one clock; R6 armed last: no action-reaching call follows a lock-arming call in the scan body",
+		RuleText:    "R1 one obligation per ACT call in the scan body; R2 arming (guard + must-pass-through + callers); R3 lock/locked/unlock bodies; R4 scaleLock construction sites and field store census; R5 one clock; R6 armed last: no action-reaching call follows a lock-arming call in the scan body; R7 nothing reachable from RunOnce replaces a group state or its lock as a whole",
 		Assumptions: []string{"elapsed wall-clock time itself is not decided; the lock is in memory (within one controller lifetime, as the statement says)"}})
 	register(&propSpec{ID: "C03", Run: checkC03,
 		Explanation: "Per scan: at the call of the taint loop the linear fact n + min_nodes ≤ len(untainted) holds on every path (Fourier–Motzkin over the clamp's two paths); the taint loop is a bounded accumulator (≤ 1 taint write per iteration, exits before the write once n writes succeeded, accumulator grows on every success) so successes ≤ max(n,0); targets are elements of the classifier's untainted list, whose append requires ¬cordoned ∧ ¬tainted ∧ ¬forced; ScaleDown is reachable only when len(untainted) ≥ min_nodes and the below-minimum branch only scales up by min − len(untainted); auto-discovered bounds are the cloud group's own MinSize/MaxSize.",
@@ -250,6 +250,7 @@ func checkC02(ck *Check) {
 	ck.lockBodies("C02.R3")
 	ck.lockConstruction("C02.R4")
 	ck.armedLast("C02.R6")
+	ck.statePersistence("C02.R7")
 	// R3 (continued): nothing else releases or forges the lock
 	{
 		var bad []string
@@ -1232,4 +1233,84 @@ func lockStateBase(holder ssa.Value, fLock *types.Var, depth int) ssa.Value {
 		}
 	}
 	return nil
+}
+
+// statePersistence (C02.R7): a cool-down is only as long-lived as the NodeGroupState that holds
+// its lock. Nothing reachable from RunOnce replaces a group's state or its lock as a whole: no
+// store into a location whose type holds NodeGroupState / scaleLock values (the controller's map
+// of states, a *NodeGroupState slot, the scaleUpLock field), no whole-struct overwrite through a
+// pointer to one, no map update with such values. Field-wise updates of a state (what the scan
+// does) and the lock's own methods are not whole-value stores.
+func (ck *Check) statePersistence(rule string) {
+	a := ck.A
+	if a.TState == nil || a.TLock == nil || a.RunOnce == nil {
+		ck.lost(rule, "NodeGroupState / scaleLock / RunOnce", "not resolved")
+		return
+	}
+	var holds func(t types.Type, depth int) bool
+	holds = func(t types.Type, depth int) bool {
+		if t == nil || depth > 4 {
+			return false
+		}
+		if types.Identical(t, a.TState) || types.Identical(t, a.TLock) {
+			return true
+		}
+		switch u := t.Underlying().(type) {
+		case *types.Pointer:
+			return holds(u.Elem(), depth+1)
+		case *types.Map:
+			return holds(u.Elem(), depth+1)
+		case *types.Slice:
+			return holds(u.Elem(), depth+1)
+		case *types.Array:
+			return holds(u.Elem(), depth+1)
+		}
+		return false
+	}
+	reach := ck.P.reachableFrom([]*ssa.Function{a.RunOnce}, nil)
+	var fns []*ssa.Function
+	for fn := range reach {
+		fns = append(fns, fn)
+	}
+	sort.Slice(fns, func(i, j int) bool { return funcID(fns[i]) < funcID(fns[j]) })
+	n, bad := 0, 0
+	for _, fn := range fns {
+		ord := 0
+		for _, b := range fn.Blocks {
+			for _, in := range b.Instrs {
+				switch x := in.(type) {
+				case *ssa.Store:
+					pt, ok := x.Addr.Type().Underlying().(*types.Pointer)
+					if !ok || !holds(pt.Elem(), 0) {
+						continue
+					}
+					if _, local := baseOfAddr(x.Addr).(*ssa.Alloc); local {
+						if al := baseOfAddr(x.Addr).(*ssa.Alloc); !al.Heap {
+							continue // a local copy
+						}
+					}
+					n++
+					bad++
+					ck.fail(rule, fmt.Sprintf("%s/state-store#%d", funcID(fn), ord), ck.P.instrPos(x), funcID(fn), "nothing reachable from RunOnce replaces a group's state or scale lock as a whole", "store of a "+typeName(pt.Elem())+" value",
+						"the scale-up lock (and the dry-mode bookkeeping) of a group is lost in the middle of its cool-down: "+strings.Join(ck.P.chain(a.RunOnce, fn), " → "))
+					ord++
+				case *ssa.MapUpdate:
+					mt, ok := x.Map.Type().Underlying().(*types.Map)
+					if !ok || !holds(mt.Elem(), 0) {
+						continue
+					}
+					n++
+					bad++
+					ck.fail(rule, fmt.Sprintf("%s/state-store#%d", funcID(fn), ord), ck.P.instrPos(x), funcID(fn), "nothing reachable from RunOnce replaces a group's state or scale lock as a whole", "map update with "+typeName(mt.Elem())+" values",
+						"a group's state is replaced during a scan: "+strings.Join(ck.P.chain(a.RunOnce, fn), " → "))
+					ord++
+				}
+			}
+		}
+	}
+	ck.Stats[rule+" functions reachable from RunOnce"] = len(fns)
+	if bad == 0 {
+		ck.ok(rule, "state/persistence", "", funcID(a.RunOnce), "nothing reachable from RunOnce replaces a group's state or scale lock as a whole", fmt.Sprintf("%d functions examined", len(fns)))
+	}
+	ck.floor(rule, "functions reachable from RunOnce", len(fns), 20)
 }
